@@ -22,6 +22,6 @@ for i,r in enumerate(R):
     suf=['','.2','.3','.4'][i]
     L.append('\n## Round %d\n\n| property | directory | where | quick tier as found | now | strengthening |\n|---|---|---|---|---|---|'%(i+1))
     for e in r: L.append(row(e,e['property']+suf))
-L.append('\n## Reverting the repairs\n\n`revert_matrix.txt` (from `tools/revert_matrix.sh`, run when 41 repairs existed): for each `fix:` commit of /repo the reverse patch is applied to the working tree, the quick check of its property is run and /repo is restored. All 39 reverts that still applied were reported (two reverse patches no longer apply on top of later fixes of the same lines). Two of them (`ae55e75`, `0e33f65`) were first reached only by the thorough tier; the fail-slow fault kind and guided deepening brought them into the quick tier. The seven later repairs were each found by the quick tier itself.\n')
+L.append('\n## Reverting the repairs\n\n`revert_matrix.txt` (from `tools/revert_matrix.sh`, run when 41 repairs existed): for each `fix:` commit of /repo the reverse patch is applied to the working tree, the quick check of its property is run and /repo is restored. All 39 reverts that still applied were reported (two reverse patches no longer apply on top of later fixes of the same lines). Two of them (`ae55e75`, `0e33f65`) were first reached only by the thorough tier; the fail-slow fault kind and guided deepening brought them into the quick tier. The seven later repairs were each found by the quick tier itself, and their reverts were run through the final checks as well (last block of the file): all reported.\n')
 open('/verif/seeded/README.md','w').write('\n'.join(L)+'\n')
 print([sum(found(e) for e in r) for r in R])
